@@ -64,7 +64,7 @@ fn try_key<const N: usize>(acc: &mut Acc, s: &str) {
         Ok(Ok(())) => {
             acc.bump("hexkey:Ok");
             // a key of the wrong length must not be reported as success either
-            if s.len() != 2 * N {
+            if s.chars().filter(|c| c.is_ascii_hexdigit()).count() != 2 * N {
                 acc.violate(format!("C09|Key<{}>::try_from|accepted-wrong-length", N), format!("Key::<{}>::try_from accepted a hex string of {} characters", N, s.len()), json!({"kind": "hexkey", "n": N, "input": s}));
             }
         }
@@ -93,6 +93,24 @@ fn hex_inputs() -> Vec<String> {
         let mut s = "1".repeat(len);
         s.replace_range(0..1, " ");
         v.push(s);
+    }
+    // too few / enough / too many hex digits padded with white space to every total length around 2N
+    for n in [24usize, 32, 48, 49, 64] {
+        for digits in (0..=2 * n + 2).step_by(2) {
+            for total in [digits + 1, 2 * n - 1, 2 * n, 2 * n + 1, 2 * n + 2] {
+                if total < digits {
+                    continue;
+                }
+                let pad = total - digits;
+                let hex = "a1".repeat(digits / 2);
+                v.push(format!("{}{}", hex, "\n".repeat(pad)));
+                v.push(format!("{}{}", " ".repeat(pad), hex));
+                if pad >= 2 {
+                    v.push(format!("{}\r\n{}", hex, " ".repeat(pad - 2)));
+                    v.push(format!(" {}{}", hex, "\t".repeat(pad - 1)));
+                }
+            }
+        }
     }
     v.push("\u{00e9}\u{00e9}".repeat(16));
     v.push("0x".to_string() + &"00".repeat(32));
